@@ -375,6 +375,8 @@ def r_escape(ctx) -> RuleResult:
                 if "getText" not in txt:
                     continue
                 rule_name = None
+                if fi.cls is None:
+                    pass
                 for r in ("node_index", "node_property_value", "count"):
                     if f".{r}(" in txt:
                         rule_name = r
@@ -383,6 +385,13 @@ def r_escape(ctx) -> RuleResult:
                     bad = [r for r, a in G.g4.items() if r not in G.g4_lex and a[0] == "cat" and len(a[1]) == 2 and a[1][0][0] == "tok"
                            and not (a[1][1][0] == "opt" and a[1][1][1] == ("ref", "count"))]
                     rule_name = "count" if not bad else None
+                if rule_name is None and fi.cls is not None:
+                    # by where the text comes from (origin typing of the listener)
+                    from ..origin import OriginTyper, tags as _tags
+                    if "origin_typer" not in ctx.cache:
+                        ctx.cache["origin_typer"] = OriginTyper(repo, lis, [])
+                    tg_ = _tags(ctx.cache["origin_typer"].ty(fi, n.args[0])) - {"ctx", "const"}
+                    rule_name = {frozenset({"idx"}): "node_index", frozenset({"val"}): "node_property_value", frozenset({"fml"}): "count"}.get(frozenset(tg_))
                 if rule_name is None:
                     raise AnalysisError(f"R-ESCAPE: cannot tell which grammar rule's text `{short(n)}` converts (in {fi.qualname})")
                 ok = digits_only(rule_name)
